@@ -6,13 +6,14 @@ EXTENDS Naturals, Sequences, FiniteSets
 None == "none"
 
 AllKinds == {"fail", "err", "skip", "xfail", "uxs", "ki", "exit",
-             "custom", "custom2", "subfail", "subskip", "subki", "skipobj"}
-BaseKinds == {"ki", "exit", "subki"}          \* do not derive from Exception
+             "custom", "custom2", "custom3", "subfail", "subskip", "subki", "skipobj", "abort"}
+BaseKinds == {"ki", "exit", "subki", "abort"}   \* do not derive from Exception (abort: a user BaseException subclass)
 
 \* The documented handler table (testcase.py:248-254), user-inserted handler first:
 \*   custom  = Exception subclass whose handler was inserted at the FRONT (reports a failure)
 \*   custom2 = Exception subclass whose handler was appended BEHIND (Exception, error): never fires
-Map(k) == CASE k \in {"fail", "subfail", "custom"} -> "failure"
+\*   custom3 = class Sub3(Base3) with user handlers inserted as [(Base3, failure), (Sub3, skip)]: list order decides
+Map(k) == CASE k \in {"fail", "subfail", "custom", "custom3"} -> "failure"
             [] k \in {"err", "custom2"} -> "error"
             [] k \in {"skip", "subskip", "skipobj"} -> "skip"     \* skipobj: skipTest(reason) with a non-str reason
             [] k = "xfail" -> "xfail"
